@@ -125,7 +125,8 @@ def rewrite_future(market, cut_day, seed, mode):
     """The market with every row dated AFTER cut_day either regenerated from an unrelated random walk
     (mode 'rewrite') or removed (mode 'delete').  Rows dated <= cut_day are the same tuples.
     In 'delete' mode a symbol that would be left without any row keeps its future rows rewritten instead
-    (a CSV file with no rows cannot be loaded by any data source)."""
+    (a CSV file with no rows cannot be loaded by any data source) - minus its first three bars, so that the date of its
+    first bar, a fact about the future, differs between the two worlds as well."""
     out = {}
     for sym, rows in market.items():
         past = [r for r in rows if r[0] <= cut_day]
@@ -133,6 +134,8 @@ def rewrite_future(market, cut_day, seed, mode):
         if mode == "delete" and past:
             out[sym] = past
             continue
+        if mode == "delete" and len(future) > 4:
+            future = future[3:]
         rng = random.Random("fut:%s:%s:%s" % (seed, sym, cut_day.isoformat()))
         close = round(rng.uniform(2.0, 900.0), 2)
         new = []
